@@ -130,6 +130,20 @@ def generate(contract, registry, props=None, tier="quick"):
         for clause in contract.axioms:
             st.assume(eng.spec_bool(st, clause))
         eng.cover(st, "precondition-satisfiable", fn.lineno)
+        # ghost code anchored at function entry
+        for anchor, code in contract.ghost_after:
+            if anchor == "<entry>":
+                eng.ghost_hits.add(anchor)
+                gbody = ast.parse(code).body
+                for b_ in gbody:
+                    for n_ in ast.walk(b_):
+                        n_._is_ghost = True
+                        n_.lineno = fn.lineno
+                        n_.col_offset = 0
+                        n_.end_lineno = fn.lineno
+                        n_.end_col_offset = 0
+                outs0 = eng.exec_block(gbody, st)
+                st = outs0[0][0]
         body = fn.node.body
         outs = eng.exec_block(body, st)
         nret = 0
@@ -175,6 +189,20 @@ def generate(contract, registry, props=None, tier="quick"):
             raise
         out.error = f"encoding error: {e}"
     out.obligations = eng.obligations
+    if getattr(eng, "uses_cumsum_lemma", False) and not eng.mode.fp:
+        # induction step: C non-decreasing on [0, j], C[j+1] = C[j] + x, x >= 0  |-  non-decreasing on [0, j+1]
+        C = z3.Array("C!lem", z3.IntSort(), z3.RealSort())
+        jj, x = z3.Int("j!lem"), z3.Real("x!lem")
+        a, b = z3.Ints("a!lem b!lem")
+        hyp = z3.And(z3.ForAll([a, b], z3.Implies(z3.And(0 <= a, a <= b, b <= jj), C[a] <= C[b])),
+                     C[jj + 1] == C[jj] + x, x >= 0, jj >= 0)
+        goal = z3.ForAll([a, b], z3.Implies(z3.And(0 <= a, a <= b, b <= jj + 1), C[a] <= C[b]))
+        o = Obligation(f"{fn.module}.{fn.qualname}:lemma:cumsum-monotone-induction-step", "lemma", [hyp], goal, 0,
+                       f"{fn.module}.{fn.qualname}", "prefix sums of non-negative terms are non-decreasing (induction step; base case trivial)")
+        out_lemmas = [o]
+    else:
+        out_lemmas = []
+    out.obligations = out.obligations + out_lemmas
     if eng.abstract_fp and eng.mode.fp:
         from .fplemmas import lemma_obligations
         lems, lnotes = lemma_obligations(tier)
